@@ -21,6 +21,9 @@ import (
 // rawTrip sends arbitrary bytes to a listener and classifies what comes back:
 // "resp" (a DNS message came back), "none" (nothing within the wait), "closed" (connection / stream ended),
 // "http<code>".  frameLen < 0: use the true length for stream listeners.
+// splitFrames: stream frames of rawTrip are written in two pieces
+var splitFrames bool
+
 func (in *inst) rawTrip(lst string, payload []byte, frameLen int, get bool) (string, []byte) {
 	wait := 700 * time.Millisecond
 	addr := fmt.Sprintf("127.0.0.1:%d", in.ports[lst])
@@ -52,7 +55,13 @@ func (in *inst) rawTrip(lst string, payload []byte, frameLen int, get bool) (str
 		f := make([]byte, 2+len(payload))
 		binary.BigEndian.PutUint16(f, uint16(fl))
 		copy(f[2:], payload)
-		c.Write(f)
+		if splitFrames && len(f) > 5 { // the frame arrives in two pieces (prefix and a few octets, a pause, the rest)
+			c.Write(f[:4])
+			time.Sleep(30 * time.Millisecond)
+			c.Write(f[4:])
+		} else {
+			c.Write(f)
+		}
 		c.SetReadDeadline(time.Now().Add(wait))
 		h := make([]byte, 2)
 		if _, err := io.ReadFull(c, h); err != nil {
@@ -217,6 +226,19 @@ func modeC01(thorough bool) {
 			in.tr.Emit("raw.send", "qn", qn, "lst", lst, "in", vtrace.Bytes(p), "get", get, "framelen", len(p))
 			out, _ := in.rawTrip(lst, p, -1, get)
 			in.tr.Emit("raw.out", "qn", qn, "lst", lst, "outcome", out)
+		}
+		if lst == "tcp" || lst == "gnet" || lst == "tls" { // the same inputs, each frame arriving in two pieces
+			splitFrames = true
+			for pi, p := range payloads {
+				if pi%2 == 0 || len(p) > 2000 {
+					continue
+				}
+				qn := int(qnCtr.Add(1))
+				in.tr.Emit("raw.send", "qn", qn, "lst", lst, "in", vtrace.Bytes(p), "get", false, "framelen", len(p))
+				out, _ := in.rawTrip(lst, p, -1, false)
+				in.tr.Emit("raw.out", "qn", qn, "lst", lst, "outcome", out)
+			}
+			splitFrames = false
 		}
 		// length prefix lies (stream listeners): announced longer / shorter than what follows
 		if lst == "tcp" || lst == "gnet" || lst == "tls" {
